@@ -17,7 +17,7 @@ BOUNDS = {"kv": (3, 3), "active": (2, 2), "fixed": (2, 2), "delim": (2, 3), "sea
 DEEP = {"kv": True, "active": False, "fixed": True, "delim": False, "search": False, "ini": False}   # thorough only
 NVAR = {"quick": {"kv": 1, "active": 2, "fixed": 1, "delim": 1, "search": 1, "ini": 1},
         "thorough": {"kv": 2, "active": 3, "fixed": 1, "delim": 2, "search": 2, "ini": 1}}
-CAP = {"quick": {"kv": 3000, "active": 1000, "fixed": 6000, "delim": 2000, "search": 4000, "ini": 4000},
+CAP = {"quick": {"kv": 4500, "active": 1000, "fixed": 6000, "delim": 2000, "search": 4000, "ini": 4000},
        "thorough": {"kv": 30000, "active": 10 ** 6, "fixed": 60000, "delim": 20000, "search": 10 ** 6, "ini": 40000}}
 NRAND = {"quick": {"kv": 1000, "active": 500, "fixed": 1500, "delim": 1000, "search": 1000, "ini": 1000},
          "thorough": {"kv": 20000, "active": 8000, "fixed": 30000, "delim": 20000, "search": 20000, "ini": 20000}}
